@@ -169,6 +169,8 @@ StrTxMarks(s, ev, t, ok) ==
      \cup If(ok /\ AnyMsg(ev, LAMBDA m : m.t = "SCancel" /\ HasS(m) /\ X(m).dep = 0), "cancel:drained")
      \cup If(ok /\ AnyMsg(ev, LAMBDA m : m.t = "SCreate" /\ \E k \in DOMAIN s.str.s : s.str.s[k].den = m.denom /\ s.str.s[k].dep > 0), "create:second-stream-same-denomination")
      \cup If(ok /\ AnyMsg(ev, LAMBDA m : m.t = "SCreate" /\ HasStream(s, m.sender, m.receiver)), "create:reverse-direction-exists")
+     \cup If(AnyMsg(ev, LAMBDA m : m.t = "SCreate" /\ m.receiver \in Blocked /\ Get(m, "enc", "lower") = "lower"), "create:blocked-receiver")
+     \cup If(AnyMsg(ev, LAMBDA m : m.t = "SCreate" /\ m.receiver \in Blocked /\ Get(m, "enc", "lower") = "upper"), "create:blocked-receiver-upper-case-address")
      \cup If(ok /\ Cardinality({ j \in DOMAIN MsgsOf(ev) : MsgsOf(ev)[j].t \in {"SCreate", "SClaim", "STopUp", "SRate", "SCancel"} }) >= 2, "stream:two-ops-in-one-tx")
      \cup If(~ok /\ Len(ev.msgs) > 1 /\ HasStreamMsg(ev), "stream:multi-message-tx-fails")
 
@@ -256,6 +258,7 @@ AllLabels == <<
   "feegrant:no-allowance", "feegrant:granter-cannot-pay", "feegrant:payer-cannot-cover-though-granter-pays", "feegrant:revoked",
   "decide:by-removed-signer", "whitelist:by-removed-signer", "ent:accepted-from-non-signer", "wrk:buy:nested-with-limit-above-lowered-max", "bcn:buy:nested-with-limit-above-lowered-max",
   "wrk:buy:nested-over-max", "bcn:buy:nested-over-max", "topup:drained-with-zero-time-equal-to-now", "topup:zero-time-equal-to-now", "claim:zero-time-equal-to-now",
+  "create:blocked-receiver", "create:blocked-receiver-upper-case-address",
   "gov:proposal-rolled-back-after-first-message", "complete:two-same-purchaser",
   "topup:in-the-second-of-the-zero-time-before-it", "topup:in-the-second-of-the-zero-time-after-it",
   "claim:in-the-second-of-the-zero-time-before-it", "claim:in-the-second-of-the-zero-time-after-it",
